@@ -428,11 +428,42 @@ def gen_update_exiting(g: Gen, c: Contract):
             'new_region_name': 'n' if r.random() < 0.9 else r.choice(UNIVERSE)}
 
 
+def gen_iter_scfg(g: Gen, c: Contract):
+    """a level with (mostly) a unique head, some of whose blocks are regions with fully iterable, uniquely named sub-graphs"""
+    r = g.rng
+    args = gen_view(g, c)
+    scfg = args['self'].scfg
+    for k in list(scfg.graph):
+        b = scfg.graph[k]
+        if type(b).__name__ == 'RegionBlock' or isinstance(b, g.bb.SyntheticBranch):
+            if type(b).__name__ == 'RegionBlock':
+                # gen_view's regions hold a single block named 'x' in every region: rename per region
+                inner = b.subregion.graph.pop('x')
+                import dataclasses
+                b.subregion.graph['x' + k] = dataclasses.replace(inner, name='x' + k)
+                scfg.graph[k] = dataclasses.replace(b, header='x' + k, exiting='x' + k)
+            continue
+        if r.random() < 0.25:
+            reg = region_chain(g, list(b._jump_targets), r.choice([1, 2]), name=k)
+            scfg.graph[k] = reg
+    if r.random() < 0.05 and len(scfg.graph) > 1:
+        # a name clash across the hierarchy (precondition `unique-*` false: case skipped)
+        ks = list(scfg.graph)
+        for k in ks:
+            if type(scfg.graph[k]).__name__ == 'RegionBlock':
+                sub = scfg.graph[k].subregion
+                other = [x for x in ks if x != k]
+                if other:
+                    sub.graph[other[0]] = g.bb.BasicBlock(name=other[0], _jump_targets=())
+                break
+    return {'self': scfg}
+
+
 def gen_scfg_only(g: Gen, c: Contract):
     return {'scfg': g.scfg(with_be=0.15, ext=0.4)}
 
 
-GENERATORS = {'sync_exiting': gen_sync_exiting, 'update_exiting': gen_update_exiting, 'head_blocks': gen_head_blocks, 'branch_regions': gen_branch_regions, 'view': gen_view, 'scfg_only': gen_scfg_only, 'dom_tables': gen_dom_tables, 'stream': gen_stream, 'flowinfo': gen_flowinfo, 'block_bcmap': gen_block_bcmap, 'namegen': gen_namegen, 'insert_ctrl': gen_insert_ctrl, 'tails_exits': gen_tails_exits, 'graph_and_pair': gen_graph_and_pair, 'graph_and_subset': gen_graph_and_subset, 'insert': gen_insert, 'branch_replace': gen_branch_replace}
+GENERATORS = {'iter_scfg': gen_iter_scfg, 'sync_exiting': gen_sync_exiting, 'update_exiting': gen_update_exiting, 'head_blocks': gen_head_blocks, 'branch_regions': gen_branch_regions, 'view': gen_view, 'scfg_only': gen_scfg_only, 'dom_tables': gen_dom_tables, 'stream': gen_stream, 'flowinfo': gen_flowinfo, 'block_bcmap': gen_block_bcmap, 'namegen': gen_namegen, 'insert_ctrl': gen_insert_ctrl, 'tails_exits': gen_tails_exits, 'graph_and_pair': gen_graph_and_pair, 'graph_and_subset': gen_graph_and_subset, 'insert': gen_insert, 'branch_replace': gen_branch_replace}
 
 
 def gen_args(g: Gen, c: Contract):
@@ -565,6 +596,13 @@ class Outcome:
         self.kind, self.detail = kind, detail   # 'ok' | 'skip' | 'known' | 'fail'
 
 
+def it_ok(c, env, it):
+    try:
+        return bool(ceval(c.yield_check, dict(env, it=it)))
+    except Exception:
+        return False
+
+
 def heap_namespace(args):
     """run-time meaning of the heap-mode vocabulary (DESIGN 11.7): a sub-graph identity is the SCFG object of a region;
     all_subs() are the sub-graphs nested under the arguments, graph_at_entry(s) their block dictionaries before the call"""
@@ -630,6 +668,12 @@ def check_case(c: Contract, fn, args, ns=None, ignore_known=False):
         res = fn(**args)
         if c.yields:
             items = list(res)
+            if c.yield_check:
+                for it in items:
+                    if not it_ok(c, env, it):
+                        return Outcome('fail', {'clause': 'yield-item', 'observed': describe(it)})
+            if c.yield_key is not None:
+                items = [it[c.yield_key] for it in items]
             if len(items) != len(set(items)):
                 return Outcome('fail', {'clause': 'yield-once', 'observed': items})
             res = set(items)
